@@ -12,6 +12,7 @@ pub mod c12;
 pub mod c13;
 pub mod c15;
 pub mod c16;
+pub mod c17;
 pub mod c19;
 
 use crate::harness::Prop;
@@ -31,6 +32,7 @@ pub fn by_id(id: &str) -> Option<&'static dyn Prop> {
         "C13" => Some(&c13::C13),
         "C15" => Some(&c15::C15),
         "C16" => Some(&c16::C16),
+        "C17" => Some(&c17::C17),
         "C19" => Some(&c19::C19),
         _ => None,
     }
